@@ -177,3 +177,17 @@ claim("C10",
       "read back from HDF5 (NumPy/h5py conversions).",
       "event order / guard presence on all abstract paths; decision-table extraction evaluated on the type lattice; "
       "event arguments; stateless-handle classification", "DESIGN.md#c10")
+
+claim("C16",
+      "Static decision: every numpy/h5py attribute chain the package mentions exists in the installed library "
+      "(existence probed in the repository's interpreter; a bogus control attribute must be reported missing on every "
+      "run); the duplicate-name test precedes data-frame creation; in every data-frame reader/writer, parameters that "
+      "are indices or names are compared with None by identity, never tested by truthiness; no storage write precedes "
+      "an explicit argument refusal in append_column/append_rows/write_column/write_rows/write_cell; no entity code "
+      "creates HDF5 objects through the raw h5py handle (only the hdf5 layer creates, so data sets stay chunked and "
+      "resizable); write_rows passes rows and indices through unpermuted, write_cell writes back the row it read, "
+      "write_column writes row i at index i; schema accessors derive from the stored compound type; the data-frame "
+      "read path keeps no look-aside tables whose key does not determine the value. NOT decided: cell values and "
+      "types read back, NumPy structured-array conversions.",
+      "AST attribute-chain collection + existence probe (linkage); decision atoms / event order / argument provenance "
+      "on all abstract paths; resolved call graph who-may-create; stateless-handle classification", "DESIGN.md#c16")
